@@ -10,7 +10,8 @@ QUICK_N = {"F1a": 500, "F1b": 250, "F1c": 150, "F1d": 250, "F1e": 100, "F1f": 25
            "F2c": 120, "F3a": 150, "F3b": 80, "F3c": 12, "F4": 26, "F5a": 200, "F5b": 120, "F5c": 200, "F5d": 40, "F3d": 50, "F4b": 40, "F7a": 84, "F7b": 250, "F7c": 200, "F8": 400, "F8g": 450, "F8f": 80, "F9": 350, "FL": 40, "FW": 10}
 
 
-def sample_programs(tier, fams=None, scale=1.0, name="gen"):
+def sample_programs(tier, fams=None, scale=1.0, name="gen", quota=None):
+    """quota: per-family override of the quick-tier sample size (None = every program of the family)"""
     fams = fams or ALL_FAMS
     progs = refine.gen_programs(fams, name)
     by = {}
@@ -24,6 +25,8 @@ def sample_programs(tier, fams=None, scale=1.0, name="gen"):
         total[f] = len(ps)
         if tier == "quick":
             n = int(QUICK_N.get(f, 100) * scale)
+            if quota and f in quota:
+                n = len(ps) if quota[f] is None else quota[f]
             if len(ps) > n:
                 ps = rnd.sample(ps, n)
         out += ps
@@ -109,7 +112,9 @@ def c02(tier):
     t0 = time.time()
     pid = "C02"
     verdict = common.Verdict(pid)
-    progs, total = sample_programs(tier, name="c02", scale=0.7)
+    # the families built around the optimiser's beliefs are taken whole, the expression families thinner
+    progs, total = sample_programs(tier, name="c02", scale=0.7, quota={"F8": None, "F8g": None, "F8f": None, "F8h": None, "F5d": None, "F4b": None,
+                                                                       "F1a": 200, "F1b": 100, "F1d": 100, "F2a": 150, "F1f": 120, "FP": 150})
     cases, bodies = [], {}
     for i, p in enumerate(progs):
         fn = sorted(render.calls_in(p["body"]))
